@@ -339,20 +339,6 @@ Definition eval_repl (e : env) (r : repl) : Z :=
   end.
 Definition repl_safe (r : repl) : bool := match r with RMin _ _ => false | _ => true end.
 
-(* Does MoveMemrefDims resolve some `memref.dim` inside a loop through an affine.min (class of the
-   known finding F22: `move_dim_affine_min`)? *)
-Fixpoint has_min_dim_op (Sout : scope) (in_loop : bool) (Sin : scope) (o : op) {struct o} : bool :=
-  match o with
-  | Def _ (PDim src idx) =>
-    in_loop &&
-    match cst_of (Sin ++ Sout) idx with
-    | Some iz => match resolve_dim 8 Sin Sout src iz with Some (RMin _ _) => true | _ => false end
-    | None => false
-    end
-  | Def _ _ | Eff _ _ => false
-  | For _ _ _ _ body => existsb (has_min_dim_op (Sin ++ Sout) true (defs_top body)) body
-  end.
-Definition prog_has_min_dim (b : list op) : bool := existsb (has_min_dim_op [] false (defs_top b)) b.
 
 (* ---------------------------------------------------------------- MoveMemrefDims: the IR surgery *)
 (* replace_all_uses_with: every use of `d` becomes a use of `w` (definitions are untouched) *)
@@ -383,6 +369,31 @@ Fixpoint dim_uses_ok (d : var) (o : op) : bool :=
   | Eff _ args => negb (memb d args)
   | For _ lb ub st body => negb (memb d [lb; ub; st]) && forallb (dim_uses_ok d) body
   end.
+
+(* Does MoveMemrefDims rewrite some `memref.dim` inside a loop through an affine.min (class of the known
+   finding F22: `move_dim_affine_min`)?  With the guards of can_move_dim: the index is a constant op, the
+   dim is only used by alloc / subview ops, and the size resolution ends in an affine.min whose first map
+   result is a constant. *)
+Definition dim_is_min (Sout Sin : scope) (o : op) (rest : list op) : bool :=
+  match o with
+  | Def d (PDim src idx) =>
+    match cst_of (Sin ++ Sout) idx with
+    | Some iz => match resolve_dim 8 Sin Sout src iz with Some (RMin _ _) => forallb (dim_uses_ok d) rest | _ => false end
+    | None => false
+    end
+  | _ => false
+  end.
+Fixpoint has_min_dim_op (Sout : scope) (o : op) {struct o} : bool :=
+  match o with
+  | Def _ _ | Eff _ _ => false
+  | For _ _ _ _ body =>
+    (fix go (l : list op) : bool :=
+       match l with
+       | [] => false
+       | x :: r => dim_is_min Sout (defs_top body) x r || has_min_dim_op (defs_top body ++ Sout) x || go r
+       end) body
+  end.
+Definition prog_has_min_dim (b : list op) : bool := existsb (has_min_dim_op (defs_top b)) b.
 
 (* get_new_memref_op on a block argument builds `memref.dim source, index_constant` with the index constant OP of
    the dim at the end of the chain: the name of that index value *)
